@@ -448,6 +448,7 @@ func c11BadHistory(c *ctx, lc *logCounter, h int, kind string) {
 	dir := filepath.Join(c.Dir, fmt.Sprintf("certs-%s-%d", kind, h))
 	os.MkdirAll(dir, 0o755)
 	defer os.RemoveAll(dir)
+	good0 := c11Make("g0-cert.pem", "zero.s.test")
 	good1 := c11Make("g1-cert.pem", "one.s.test")
 	good2 := c11Make("g2-cert.pem", "two.s.test")
 	write := func(name string, cert, key []byte) {
@@ -479,6 +480,7 @@ func c11BadHistory(c *ctx, lc *logCounter, h int, kind string) {
 		defer srv.Close()
 		src = cert.HTTPSource{CertURL: "http://" + ln.Addr().String() + "/certs/list", Refresh: refresh}
 	}
+	write("g0", good0.CertPEM, good0.KeyPEM)
 	write("g1", good1.CertPEM, good1.KeyPEM)
 	cfg, err := cert.TLSConfig(src, false, 0, 0, nil)
 	if err != nil {
@@ -514,6 +516,11 @@ func c11BadHistory(c *ctx, lc *logCounter, h int, kind string) {
 		}},
 		{"key-cert-mismatch", func() { write("zz-bad", good2.CertPEM, good1.KeyPEM) }},
 		{"missing-key", func() { os.Remove(filepath.Join(dir, "zz-bad-key.pem")) }},
+		// a certificate that is part of the working set is damaged (e.g. read in the middle of a rewrite) while others stay valid
+		{"working-certificate-garbled", func() {
+			os.Remove(filepath.Join(dir, "zz-bad-cert.pem"))
+			os.WriteFile(filepath.Join(dir, "g0-cert.pem"), good0.CertPEM[:len(good0.CertPEM)/2], 0o644)
+		}},
 	}
 	for _, ph := range phases {
 		ph.make()
@@ -522,6 +529,10 @@ func c11BadHistory(c *ctx, lc *logCounter, h int, kind string) {
 		for i := 0; i < 20; i++ {
 			if got := served("one.s.test"); got != good1.Serial {
 				c.R.Violate("c11:working-set-lost:"+kind, fmt.Sprintf("%s source, phase %s: the working certificate is no longer served (got %q)", kind, ph.name, got), in)
+				return
+			}
+			if got := served("zero.s.test"); got != good0.Serial {
+				c.R.Violate("c11:working-set-partly-replaced:"+kind, fmt.Sprintf("%s source, phase %s: the working certificate for zero.s.test is no longer served (got %s) although the source delivers unusable material", kind, ph.name, got), in)
 				return
 			}
 			c.R.Nontrivial(fmt.Sprintf("%s/%s/%d/%d", kind, ph.name, h, i))
@@ -548,6 +559,7 @@ func c11BadHistory(c *ctx, lc *logCounter, h int, kind string) {
 		}
 	}
 	// remove the bad material and add a new good certificate: it must be published
+	os.WriteFile(filepath.Join(dir, "g0-cert.pem"), good0.CertPEM, 0o644)
 	os.Remove(filepath.Join(dir, "zz-bad-cert.pem"))
 	os.Remove(filepath.Join(dir, "zz-bad-key.pem"))
 	write("g2", good2.CertPEM, good2.KeyPEM)
